@@ -18,7 +18,7 @@ RULE = ("random environments of 0..20 variables (names over [A-Za-z0-9_] incl. l
 NAME_POOL = ["A", "B", "HOME", "PATH_X", "x", "lower_case", "MiXed", "_LEAD", "__", "A1", "A_B_C", "Z9_", "LONG_" + "N" * 40, "env", "self", "let",
              "NULL", "true", "mod", "item", "in", "SECRET_TOKEN", "DB_PASSWORD", "a"]
 VALUE_POOL = ["", " ", "v", "with space", "a=b", "=", "'single'", "\"double\"", "back\\slash", "line1\nline2", "\ttab", "é ü 中", "\U0001F600", "$HOME",
-              "`x`", "x" * 3000, "trail ", "{\"json\": 1}", "[1]", "NULL", "true", "0", "-1", "1.5", "\r\n", "@{item}", "%", ";"]
+              "`x`", "x" * 3000, "y" * 70000, ("ab \u00e9\n" * 9000), "trail ", "{\"json\": 1}", "[1]", "NULL", "true", "0", "-1", "1.5", "\r\n", "@{item}", "%", ";"]
 
 
 def sel(name):
